@@ -160,31 +160,48 @@ def release_mirror(prog: Program, rep: Report) -> None:
     start_f = [c for c in conds if any("start_time" in unparse(x) for s in c.body + c.orelse for x in instant_comparisons(s))]
     rep.check(rule, fi.qual, "stop-time filter is mirrored", len(stop_f) >= 1, what_bad="no time_reversal conditional filters the release table at the stop time", what_ok="present", loc=fi.loc())
     rep.check(rule, fi.qual, "start-time filter is mirrored", len(start_f) >= 1, what_bad="no time_reversal conditional filters the release table at the start time", what_ok="present", loc=fi.loc())
-    # discretize: frequency sign
-    dz = prog.role_func("release", "discretize")
-    conds = [n_ for n_ in walk_no_nested(dz.node) if isinstance(n_, ast.If) and "time_reversal" in unparse(n_.test)]
-    ok = False
-    tgt = None
-    for c in conds:
-        neg = isinstance(c.test, ast.UnaryOp) and isinstance(c.test.op, ast.Not)
-        rev_body, fwd_body = (c.orelse, c.body) if neg else (c.body, c.orelse)
-        if len(rev_body) == 1 and len(fwd_body) == 1 and isinstance(rev_body[0], ast.Assign) and isinstance(fwd_body[0], ast.Assign):
-            if unparse(rev_body[0].targets[0]) == unparse(fwd_body[0].targets[0]):
-                f, r = unparse(fwd_body[0].value), unparse(rev_body[0].value)
-                ok = r in (f"-{f}", f"-({f})", f"-1 * {f}") and "release_frequency" in f
-                tgt = unparse(fwd_body[0].targets[0])
-    rep.check(rule, dz.qual, "continuous release: tick spacing changes sign when reversed", ok, what_bad="the release frequency (a signed offset under T) must be negated in the reversed arm", what_ok="freq / -freq", loc=dz.loc())
-    # ticks anchored at the first file time, run to the stop time with that signed spacing
-    ar = [n_ for n_ in walk_no_nested(dz.node) if isinstance(n_, ast.Call) and unparse(n_.func) == "np.arange"]
-    from ..program import expand_locals
+    # discretize: frequency sign - decided per path on the fully expanded value that becomes the table
+    from ..program import path_records
 
-    def names_in(e):
-        return {x.id for x in ast.walk(expand_locals(e, dz.node)) if isinstance(x, ast.Name)}
-
-    tgt_name = tgt if ok else None
-    first_txt = unparse(expand_locals(ar[0].args[0], dz.node)) if len(ar) == 1 and ar[0].args else ""
-    ok = len(ar) == 1 and len(ar[0].args) == 3 and first_txt.endswith(".index.unique()[0]") and unparse(ar[0].args[1]) == "self.stop_time" and tgt_name is not None and tgt_name in names_in(ar[0].args[2])
-    rep.check(rule, dz.qual, "ticks = arange(first file time, stop, signed frequency)", ok, what_bad=f"got {[short(a) for a in ar]}", what_ok="direction-symmetric", loc=dz.loc())
+    dz = prog.lview(prog.role_func("release", "discretize"))
+    n_fwd = n_rev = 0
+    sign_ok = True
+    anchor_ok = True
+    got = []
+    for p_, conds_, stores in path_records(dz.node.body):
+        rev = None
+        for t, taken in conds_:
+            if "time_reversal" in t:
+                neg = t.replace(" ", "").startswith("not")
+                rev = taken != neg
+        table = [v for tgt_, v, _st in stores if tgt_ == "self._df"]
+        if not table:
+            continue
+        try:
+            tree = ast.parse(table[-1], mode="eval")
+        except SyntaxError:
+            continue
+        ar_all = [n_ for n_ in ast.walk(tree) if isinstance(n_, ast.Call) and unparse(n_.func) == "np.arange"]
+        ar = list({unparse(n_): n_ for n_ in ar_all}.values())  # the same ticks may be mentioned more than once in the expanded value
+        if len(ar) != 1 or len(ar[0].args) != 3 or rev is None:
+            if ar or rev is not None:
+                sign_ok = anchor_ok = False
+                got.append(f"{'reversed' if rev else 'forward' if rev is not None else 'direction not tested'}: {[short(a_) for a_ in ar]}")
+            continue
+        first, stop, step = (unparse(a_) for a_ in ar[0].args)
+        got.append(f"{'reversed' if rev else 'forward'}: {short(ar[0], 120)}")
+        want = "-self.release_frequency" if rev else "self.release_frequency"
+        if step.replace(" ", "") not in (f"np.timedelta64({want},'s')", f"np.timedelta64(({want}),'s')"):
+            sign_ok = False
+        if not (first.startswith("self._df.") and first.endswith(".index.unique()[0]") or first == "self._df.index.unique()[0]") or stop != "self.stop_time":
+            anchor_ok = False
+        if rev:
+            n_rev += 1
+        else:
+            n_fwd += 1
+    both = n_fwd >= 1 and n_rev >= 1
+    rep.check(rule, dz.qual, "continuous release: tick spacing changes sign when reversed", both and sign_ok, what_bad=f"the release frequency (a signed offset under T) must be negated exactly on the reversed paths; ticks per path: {got}", what_ok="freq / -freq", loc=dz.loc())
+    rep.check(rule, dz.qual, "ticks = arange(first file time, stop, signed frequency)", both and anchor_ok, what_bad=f"got {got}", what_ok="direction-symmetric", loc=dz.loc())
 
 
 def output_mirror(prog: Program, rep: Report) -> None:
